@@ -125,6 +125,11 @@ func c03Pool(thorough bool) []cty.Value {
 		cty.NumberFloatVal(1e22), parseNum("1e22"), cty.NumberFloatVal(1e23), parseNum("1e23"), parseNum("99999999999999991611392"),
 		cty.NumberFloatVal(math.Copysign(0, -1)), cty.Zero.Negate(), parseNum("-0"),
 	)
+	// every number of the alphabet held differently (other precisions, widened by x+0 / x*1,
+	// own shortest text parsed again), plus whole numbers beyond the float64 range
+	huge := []cty.Value{bigIntNum(pow2(1024)), bigIntNum(pow2(1200)), parseNum("1e400"), cty.NumberVal(new(big.Float).SetPrec(53).SetInt(pow2(1024)))}
+	pool = append(pool, huge...)
+	pool = append(pool, numSpellings(append(mkNums(numAlphabet(true)), huge...))...)
 	// structures wrapping the delicate numbers
 	delicate := []cty.Value{
 		cty.NumberFloatVal(0.1), parseNum("0.1"), cty.NumberFloatVal(0.12345678905), parseNum("0.12345678905"),
@@ -352,7 +357,11 @@ func c03Pair(u *U, a, b cty.Value, sameType bool) {
 		if e1.True() {
 			n++
 		}
-		if n != 1 {
+		if n == 0 && numCmp(a, b) == 0 && bf(a).Prec() != bf(b).Prec() {
+			// exactly the same numeric value held at two mantissa precisions, reported as
+			// neither equal nor ordered: identified separately (see the findings file)
+			u.Violation("Number.trichotomy.same-value-at-two-precisions-unordered", shape, fmt.Sprintf("%s are numerically identical (mantissa precisions %d and %d) yet LessThan, Equals and GreaterThan are all false", desc(), bf(a).Prec(), bf(b).Prec()))
+		} else if n != 1 {
 			u.Violation("Number.trichotomy", shape, fmt.Sprintf("%s: LessThan=%v Equals=%v GreaterThan=%v", desc(), a.LessThan(b).True(), e1.True(), a.GreaterThan(b).True()))
 		}
 	}
